@@ -143,7 +143,7 @@ func run(r *hk.Run) {
 	shared := nas.NewMessage()
 	for _, v := range vectors {
 		if len(v) > 2 && v[0] == 0x7e && v[2] == 0x41 {
-			vv := append([]byte{}, v...)
+			vv := hk.Exact(v)
 			_ = shared.PlainNasDecode(&vv)
 		}
 	}
@@ -172,6 +172,10 @@ func run(r *hk.Run) {
 				r.Fail(hk.Failure{Site: "library (concurrent use)", Class: "result-differs", Input: map[string]interface{}{"seed": seeds[i], "goroutine": i, "ops": ops},
 					Detail: "a goroutine working on its own values obtained a different result than the same program run alone"})
 			}
+		}
+		if !sharedInputsIntact() {
+			r.Fail(hk.Failure{Site: "library (concurrent use)", Class: "shared-input-modified", Input: map[string]interface{}{"round": round},
+				Detail: "a list that all goroutines only passed as an argument (read-only) was written to (inside its spare capacity)"})
 		}
 		r.Sample(map[string]interface{}{"round": round, "goroutines": G, "ops_each": ops, "digest_0": conc[0][:16]})
 	}
